@@ -17,7 +17,7 @@ static void build(std::vector<hx::Job> &jobs, const vf::Opts &o, std::string &ru
     rule = "states = canonical concrete states of two ST::string objects (bytes, heap contents, ownership facts), deduplicated; "
            "non-trivial = both strings alive and at least one heap-backed";
     assumptions = {strf("%zu result-producing const operations and ~90 scalar reads are applied in every state; each mutator transition "
-                        "holds one result of every const operation across the mutator", g_ops.size()),
+                        "holds one result of each of 36 representative const operations (one per way a result comes into being) across the mutator", g_ops.size()),
                    "value correctness of the const operations themselves is the business of C06-C09/C11; here results are compared with "
                    "their own earlier value (independence) and mutator targets with a std::string model",
                    "view() returns a non-owning std::string_view by definition and is exercised as a read only",
